@@ -100,9 +100,11 @@ func checkLinesSplit(c *core.Ctx) {
 	var factoryArgs []ast.Expr
 	ast.Inspect(fn.Decl.Body, func(n ast.Node) bool {
 		if call, ok := n.(*ast.CallExpr); ok && p.CalleeName(info, call) == "bufio.(*Scanner).Split" && len(call.Args) == 1 {
-			if l := funcValueLit(p, fn, call.Args[0]); l != nil {
-				lit = l
-			} else if fc, ok := core.Unparen(call.Args[0]).(*ast.CallExpr); ok {
+			if fc, ok := core.Unparen(call.Args[0]).(*ast.CallExpr); !ok {
+				if l := funcValueLit(p, fn, call.Args[0]); l != nil {
+					lit = l
+				}
+			} else {
 				// a factory of the same package: `sc.Split(splitOnSeparator(d.separator))` with
 				// `func splitOnSeparator(sep string) bufio.SplitFunc { return func(…) … }`
 				if f := funcValueLit(p, fn, fc.Fun); f != nil && len(f.Body.List) > 0 {
